@@ -13,8 +13,10 @@ Inductive sc :=
 (* observed result of the manager call: 0 ok (payload = returned content), 1 rejected (payload =
    reason), 2 the generic plugin error, 3 panic *)
 Inductive case :=
-| CMgr (level : Z) (opi : Z) (ps : list plugin) (script : list (Z * sc)) (zero c0 : bytes)
+| CMgr (level : Z) (opi : Z) (ps : list plugin) (script : list (Z * sc)) (blind : list Z) (zero c0 : bytes)
        (kind : Z) (payload : bytes) (seen : list (Z * string * bytes))
+  (* blind: plugins whose address nobody listens on (connection refused): consulted according to
+     the model, but there is no stub that could record the request *)
   (* system level: one gated operation through a running frps.  effects: for every content the
      chain may return, what the peer must observe if the server acts on exactly that content
      ("fail" when the gated action itself refuses it); observed: what the peer did observe *)
@@ -71,7 +73,7 @@ Definition fail_marker : bytes := hx "6661696c".   (* "fail" *)
 (* 0 = agrees; otherwise a reason code *)
 Definition check_case (c : case) : Z :=
   match c with
-  | CMgr level opi ps script zero c0 kind payload seen =>
+  | CMgr level opi ps script blind zero c0 kind payload seen =>
       match op_of opi with
       | None => 90
       | Some o =>
@@ -80,7 +82,7 @@ Definition check_case (c : case) : Z :=
           let '(r', s') := spec_sem o ps f c0 in
           if negb (result_code r' =? kind) then 1
           else if negb (bytes_eqb (result_payload r') payload) then 2
-          else if negb (seen_eqb s' seen) then 3
+          else if negb (seen_eqb (filter (fun x : consult => negb (existsb (Z.eqb (fst (fst x))) blind)) s') seen) then 3
           else
             (* ... and the interpreter over today's translated tables against the same specification *)
             let '(r, s) := ir_sem gen_ops gen_fields gen_register gen_methods o ps f c0 in
@@ -116,7 +118,7 @@ Definition check_case (c : case) : Z :=
 (* counters for the evidence *)
 Definition case_result (c : case) : Z :=
   match c with
-  | CMgr _ opi ps script zero c0 _ _ _ | CSys opi ps script zero c0 _ _ _ =>
+  | CMgr _ opi ps script _ zero c0 _ _ _ | CSys opi ps script zero c0 _ _ _ =>
       match op_of opi with
       | Some o => result_code (fst (ir_sem gen_ops gen_fields gen_register gen_methods o ps (script_fn zero script) c0))
       | None => 99
@@ -125,17 +127,19 @@ Definition case_result (c : case) : Z :=
   end.
 Definition n_consulted (c : case) : Z :=
   match c with
-  | CMgr _ _ _ _ _ _ _ _ seen | CSys _ _ _ _ _ _ _ seen => Z.of_nat (length seen)
+  | CMgr _ _ _ _ _ _ _ _ _ seen | CSys _ _ _ _ _ _ _ seen => Z.of_nat (length seen)
   | CNotify _ notes => Z.of_nat (length notes)
   end.
 Definition threaded (c : case) : bool :=
   (* some consulted plugin was shown a content different from the original one *)
   match c with
-  | CMgr _ _ _ _ _ c0 _ _ seen | CSys _ _ _ _ c0 _ _ seen =>
+  | CMgr _ _ _ _ _ _ c0 _ _ seen | CSys _ _ _ _ c0 _ _ seen =>
       existsb (fun x : Z * string * bytes => negb (bytes_eqb (snd x) c0)) seen
   | CNotify _ _ => false
   end.
 Definition is_level (l : Z) (c : case) : bool :=
-  match c with CMgr l' _ _ _ _ _ _ _ _ => l =? l' | _ => false end.
+  match c with CMgr l' _ _ _ _ _ _ _ _ _ => l =? l' | _ => false end.
 Definition is_sys (c : case) : bool := match c with CSys _ _ _ _ _ _ _ _ => true | _ => false end.
 Definition is_notify (c : case) : bool := match c with CNotify _ _ => true | _ => false end.
+Definition has_blind (c : case) : bool :=
+  match c with CMgr _ _ _ _ (_ :: _) _ _ _ _ _ => true | _ => false end.
